@@ -250,6 +250,31 @@ func c15Run(nb int, pat routePattern, keys map[int][]string, s *vsched.Sched) *M
 			mm.Class += "-after-unload"
 			return mm
 		}
+		// ... and a later route change gives the same bucket back to this server: it must come back with its own
+		// content (from its own directory), and new writes must go there
+		nc2 := config.DBRouteConfig{NumBucket: nb, BucketsStat: make([]int, nb)}
+		for b := range served {
+			nc2.BucketsStat[b] = 1
+		}
+		nc2.BucketsStat[victim] = 1
+		loaded, _, err := m.St.ChangeRoute(nc2)
+		d3 := d2 + " then load it again"
+		if err != nil || len(loaded) != 1 {
+			return &Mismatch{Op: d3, Where: "ChangeRoute", Want: "one bucket loaded", Got: fmt.Sprint(loaded, err), Class: "route-change"}
+		}
+		s.Drain()
+		served[victim] = true
+		k1 := keys[victim][0]
+		want := fmt.Sprintf("VALUE %s 0 %d\r\nvalue-of-%s\r\nEND\r\n", k1, len("value-of-"+k1), k1)
+		if g := m.Cmd("get " + k1 + "\r\n"); g != want {
+			return &Mismatch{Op: d3, Where: "get after reload", Key: k1, Want: want, Got: g, Class: "route-reload-get"}
+		}
+		Tick()
+		m.Cmd(fmtSet(k1, 0, 0, []byte("value-of-"+k1)))
+		if mm := checkListings(d3); mm != nil {
+			mm.Class += "-after-reload"
+			return mm
+		}
 	}
 	// inventory after a clean shutdown: files only in the directories of served buckets that received keys,
 	// and every record in a bucket's data files hashes into that bucket
@@ -293,7 +318,7 @@ func c15Run(nb int, pat routePattern, keys map[int][]string, s *vsched.Sched) *M
 
 func C15(job *Job, r *Report) {
 	r.Level = "exploration"
-	r.Rule = "bounded-exhaustive configuration grid: bucket counts 1, 16, 256; served patterns none, all, each single bucket, the complement of a single bucket (every one for 16; quick: every 17th for 256), every non-empty proper subset of the corner buckets {0,1,e,f} / {00,0f,f0,ff}; per pattern, for every bucket id two keys found by search under the REAL key hash: set+get of one, incr+delete of the other through the memcached protocol; served => stored and readable, unserved => miss / 0 / NOT_FOUND; listing of every served bucket recomputed from its children (count = live keys), every upper-level listing line = aggregate of the served roots below (folded as the code folds); for patterns with at least two served buckets one of them is then hot-unloaded through HStore.ChangeRoute and the listings are checked again against the remaining served roots; after shutdown the memfs inventory must contain files only under directories of served buckets and an independent scan of every data file must find only keys whose hash leads to that bucket; distinct_nontrivial = patterns with at least one served and one unserved bucket"
+	r.Rule = "bounded-exhaustive configuration grid: bucket counts 1, 16, 256; served patterns none, all, each single bucket, the complement of a single bucket (every one for 16; quick: every 17th for 256), every non-empty proper subset of the corner buckets {0,1,e,f} / {00,0f,f0,ff}; per pattern, for every bucket id two keys found by search under the REAL key hash: set+get of one, incr+delete of the other through the memcached protocol; served => stored and readable, unserved => miss / 0 / NOT_FOUND; listing of every served bucket recomputed from its children (count = live keys), every upper-level listing line = aggregate of the served roots below (folded as the code folds); for patterns with at least two served buckets one of them is then hot-unloaded through HStore.ChangeRoute and the listings are checked again against the remaining served roots, then the same bucket is loaded again by a second route change (its key must read, a new write must land in its own directory, listings again); after shutdown the memfs inventory must contain files only under directories of served buckets and an independent scan of every data file must find only keys whose hash leads to that bucket; distinct_nontrivial = patterns with at least one served and one unserved bucket"
 	r.Assumptions = []string{"the fold used above bucket level (hash*97 + child, counts summed) is taken from the implementation", "tree height 2, one data file per bucket"}
 	unit := 0
 	for _, nb := range []int{1, 16, 256} {
